@@ -7,7 +7,9 @@ RULE = ("M: all checksum-correct strings over 6 HRPs and short symbol sequences 
         "alphabet, case flip): staged decoder = declarative BIP-173 validity, accepted => re-encodes to lower(s). G: TLC-built strings for every "
         "symbol count 0..84 x padding pattern, case variants, 89/90/91 boundary, separator positions, HRP boundary bytes, truncations. "
         "T: seeded valid encodings of arbitrary 5-bit symbols with substitutions, insertions, deletions, case flips, arbitrary bytes, "
-        "multi-byte code points whose case mapping lands in ASCII, truncations, random bytes. Distinct by input string; all non-trivial "
+        "multi-byte code points whose case mapping lands in ASCII, truncations, random bytes. T (regrouping package internal/base32, bound directly): "
+        "Encode/Decode on lengths 0..26 with every value of the last two symbols (all padding patterns), dirty destination buffers: results = "
+        "ToBase32/FromBase32 of the specification, counts, offset inside the input, nothing written past the result. Distinct by input string; all non-trivial "
         "(each reaches at least the separator stage or is a full-length mutation of a valid string).")
 
 
@@ -23,6 +25,16 @@ def run(ctx):
     for e in t:
         e["t"] = 2
     vlib.note_events(ctx, g + t)
+    # the regrouping package under Decode, bound directly (same trace specification)
+    b32 = vlib.build_driver(ctx, "pkg/bech32/internal/base32", ["base32/driver_test.go"], name="base32")
+    d32 = ctx.rundir("rec_base32")
+    vlib.run_driver(ctx, b32, "record", d32 + "/t.ndjson", n=6 if q else 60)
+    e32 = vlib.read_ndjson(d32 + "/t.ndjson")
+    for e in e32:
+        e["t"] = 3
+    vlib.note_events(ctx, e32, keep=1)
+    for e in vlib.reproduce(ctx, b32, vlib.validate_trace(ctx, "Bech32Trace", e32, label="T_base32"), history=e32):
+        ctx.bad.append(dict(event=e, reason="base32 regrouping differs from the specification's ToBase32 / FromBase32 (result, acceptance, count, offset range, buffers)"))
     bc.judge(ctx, binp, g + t, "real Decode disagrees with the Bech32 specification (acceptance, outputs, re-encoding, offset range or panic)")
     return vlib.finish(ctx, LEVEL, RULE, bc.ASSUME, matchers=bc.MATCHERS,
                        technique="TLA+ spec Bech32 (real polymod evaluated by TLC); exhaustive edit-closure model; TLC-generated strings replayed; recorded Decode calls validated by TLC")
